@@ -119,7 +119,7 @@ def generate(rng, tier="quick"):
                     op["inner"] = rng.choice(refs)      # resolve again from inside the entered reference
         ops.append(op)
     return {"property": PROPERTY, "world": world, "configs": configs, "ops": ops,
-            "requests": rng.random() < 0.4}
+            "requests": rng.random() < 0.4, "warnings_are_errors": rng.random() < 0.1}
 
 
 def execute(scn):
@@ -127,6 +127,9 @@ def execute(scn):
     from dsim.transport import Router, norm
     world = scn["world"]
     router = Router().install(scn.get("requests", False))
+    if scn.get("warnings_are_errors"):
+        import warnings
+        warnings.simplefilter("error")      # python -W error: a warning issued by the library is an exception there
     instances = world["instances"]
     actors = [Actor(world, cfg, router) for cfg in scn["configs"]]
     first_ok = [dict() for _ in actors]     # url -> log index of first success
